@@ -5,6 +5,6 @@ P=$1; shift
 SAVE=$(mktemp -d /tmp/iref-evid.XXXX)
 cp -a /verif/evidence/. $SAVE/ 2>/dev/null
 git -C /repo apply $P || { rm -rf $SAVE; exit 2; }
-for c in "$@"; do (cd /verif && ./check $c 2>&1 | grep -E "violated obligation|^C[0-9]+ \[" | cut -c1-420); done
+for c in "$@"; do (cd /verif && ./check $c 2>&1 | grep -E "violated obligation|^C[0-9]+ \[" | cut -c1-330 | awk '/violated obligation/{n++; if(n>4) next} {print}'); done
 git -C /repo checkout -- . ; git -C /repo status --short
 rm -rf /verif/evidence; mkdir -p /verif/evidence; cp -a $SAVE/. /verif/evidence/; rm -rf $SAVE
